@@ -263,7 +263,7 @@ def corpus(prop):
     return out
 
 
-def explore(run, focus, n_random):
+def explore(run, focus, n_random, escalate=False):
     rng = run.rng
     cases = [(sc, sch) for sc, sch in corpus(focus)]
     for _ in range(n_random):
@@ -309,6 +309,65 @@ def explore(run, focus, n_random):
         run.traces_validated += 1
         if not ok:
             run.disagree("LockingDeque/consumer primitives under the same schedule", cj, diff, None)
+    if (escalate or run.disagreements) and not run.violations:
+        # the tie or an obligation is broken and random schedules showed no failing input: search systematically
+        bounded_preemption_search(run, focus, budget_s=240 if run.tier == "quick" else 1500)
+
+
+def preemption_chooser(preempts):
+    """run the current thread while it is enabled; at scheduler step k listed in `preempts` switch to the
+    j-th other enabled thread instead.  Non-preemptive default: lowest thread in creation order."""
+    state = {"cur": None}
+
+    def choose(s, enabled, sleepers):
+        if not enabled:
+            return "clock" if sleepers else None
+        names = [t.name for t in enabled]
+        k = s.steps
+        if k in preempts:
+            others = [t for t in enabled if t.name != state["cur"]]
+            if others:
+                t = others[preempts[k] % len(others)]
+                state["cur"] = t.name
+                return t
+        if state["cur"] in names:
+            return enabled[names.index(state["cur"])]
+        t = enabled[0]
+        state["cur"] = t.name
+        return t
+    return choose
+
+
+def bounded_preemption_search(run, focus, budget_s=240, max_preempts=2):
+    """failing-input search used when the tie is broken: small scenarios, every schedule with at most
+    `max_preempts` preemptions (iterative context bounding) on the real threads, checked by the oracle"""
+    import time as _time, itertools as _it
+    t0 = _time.time()
+    scenarios = [Scenario([[("F", 0)], [("F", 1)]], {}, 500), Scenario([[("F", 0), ("F", 1)], [("L", 2)]], {}, 500),
+                 Scenario([[("F", 0)], [("L", 1)]], {0: [("F", 2)]}, 500), Scenario([[("F", 0), ("F", 1)], [("F", 2)]], {}, 2)]
+    tried = 0
+    for sc in scenarios:
+        base = run_real(sc, preemption_chooser({}), max_steps=3000)
+        n = base.steps
+        points = list(range(1, min(n, 70)))
+        combos = [()] + [(p,) for p in points] + (list(_it.combinations(points, 2)) if max_preempts >= 2 else [])
+        for combo in combos:
+            for alt in ((0,) * len(combo), (1,) * len(combo)) if combo else ((),):
+                if _time.time() - t0 > budget_s:
+                    run.notes.append("bounded-preemption search stopped after %d executions (time budget)" % tried)
+                    return tried
+                pre = {p: a for p, a in zip(combo, alt)}
+                rr = run_real(sc, fair_suffix(preemption_chooser(pre), 400), max_steps=3000)
+                tried += 1
+                cj = {"scenario": sc.to_json(), "chooser": "bounded-preemption %s" % pre, "seed": 0,
+                      "schedule": [e[0] for e in rr.trace]}
+                before = len(run.violations)
+                oracle(run, focus, sc, rr, cj)
+                if len(run.violations) > before:
+                    run.notes.append("bounded-preemption search found a failing schedule after %d executions" % tried)
+                    return tried
+    run.notes.append("bounded-preemption search: %d executions, no failing schedule" % tried)
+    return tried
 
 
 def replay(case):
